@@ -76,6 +76,7 @@ PROPS["C12"] = {
     "rule": ("api: generated graph (1-9 targets over 5 packages incl. prefix siblings, test targets, tags, platforms, 35% of edges through 1-2 aliases, free aliases) + invocation "
              "(0-3 patterns from the documented grammar relative to a generated current package, tag/exclude-tag sets, build vs test, host platform, --all-platforms) run through "
              "selection.SelectTargetsForBuild; selected set, selected-target count, platform-skipped count and error/no-error must equal an independent reference selector. "
+             "binary: the same cases through the real binary (grog build / grog test from the generated current package with --tag/--exclude-tag/--platform/--all-platforms, cold cache): the commands that ran (trace lines) must be exactly the reference selection; platform errors and empty selections must fail before anything runs. "
              "Non-trivial = platform error, or an alias inside a closure of size>1, or a tag filter active on a non-empty selection, or platform-skipped seeds; distinct by full case."),
     "assumptions": [
         "an alias matched by a pattern whose aliased target fails the tag/exclude-tag/type filters may or may not seed the selection (docs only say 'building an alias builds its actual'): both outcomes accepted, cases counted in class alias-seed-fails-target-filters",
@@ -86,6 +87,9 @@ PROPS["C12"] = {
         {"name": "api", "pkg": "c12", "test": "TestSelection",
          "quick": {"shards": 8, "checks": 24000, "cap": 600},
          "thorough": {"shards": 16, "checks": 1200000, "cap": 7200}},
+        {"name": "binary", "pkg": "c12", "test": "TestBinary", "binary": True,
+         "quick": {"shards": 24, "checks": 120, "cap": 900, "shrinktime": "30s"},
+         "thorough": {"shards": 32, "checks": 3000, "cap": 7200, "shrinktime": "60s"}},
     ],
 }
 
@@ -94,7 +98,7 @@ PROPS["C11"] = {
     "rule": ("graphs: generated graph (1-6 targets over packages '',a,a/b,ab; aliases on 40% of edges; BUILD.json/BUILD.yaml split) with output spellings (x ./x sub/../x ../x ../../x /abs dir::d dir::d/ dir::d/e d/f docker::img ...), "
              "deliberately shared output paths between random pairs, inputs incl. escaping spellings, plus one structural injection (undefined label, dangling alias, self-dependency, alias cycle, back edge with/without cycle possibly through an alias, "
              "duplicate label in one file / across files / target-vs-alias, test or testonly dependency direct or through an alias); written to disk and run through LoadPackages->BuildNodeMapFromPackages->BuildGraph->CheckTargetConstraints; "
-             "accept/reject must equal the reference validator in both directions. pairs: exhaustive enumeration of two single-output targets over 3 packages x 23 spellings each x {independent, ordered, ordered through alias}. "
+             "accept/reject must equal the reference validator in both directions. binary: the same generator through the real binary: `grog check` exit status must equal the reference verdict, and for rejected graphs `grog build //...` must exit non-zero with a message having executed nothing (commands would log to a trace file). pairs: exhaustive enumeration of two single-output targets over 3 packages x 23 spellings each x {independent, ordered, ordered through alias}. "
              "Non-trivial = graph has an alias and a defect, or contains a near-miss (overlap that is legal because ordered, '..' output that stays inside the workspace, back edge without cycle); distinct by full case."),
     "assumptions": [
         "rejections the property does not list are kept out of the generator: test target without command, non-file bin_output, two overlapping outputs of one target",
@@ -107,6 +111,9 @@ PROPS["C11"] = {
         {"name": "graphs", "pkg": "c11", "test": "TestGraphs",
          "quick": {"shards": 8, "checks": 12000, "cap": 900},
          "thorough": {"shards": 16, "checks": 400000, "cap": 7200}},
+        {"name": "binary", "pkg": "c11", "test": "TestBinary", "binary": True,
+         "quick": {"shards": 16, "checks": 160, "cap": 900, "shrinktime": "30s"},
+         "thorough": {"shards": 32, "checks": 6000, "cap": 7200, "shrinktime": "60s"}},
         {"name": "pairs", "pkg": "c11", "test": "TestEnumPairs", "kind": "enum",
          "quick": {"shards": 8, "cap": 900},
          "thorough": {"shards": 8, "cap": 900}},
@@ -162,7 +169,7 @@ PROPS["C03"] = {
     "level": "exploration",
     "rule": ("bubble: generated DAG (2-40 nodes; random, chain, repeated diamonds, fan-in/out, complete-bipartite layers), selection closed under dependencies, num_workers 1-8, per-node virtual latency from {0,1,2,3,10 ms}; "
              "the real dag.Walker drives the real TaskWorkerPool inside a testing/synctest bubble, so completion order is a function of the generated latencies. Every command start must come after a successful end of each transitive dependency, "
-             "at most one start per node, running commands <= num_workers at every prefix of the event log, unselected nodes never run, finished nodes are marked completed. race: the same on the real scheduler under the race detector with zero/microsecond latencies and GOMAXPROCS in {1,2,4,16}. "
+             "at most one start per node, running commands <= num_workers at every prefix of the event log, unselected nodes never run, finished nodes are marked completed. race: the same on the real scheduler under the race detector with zero/microsecond latencies and GOMAXPROCS in {1,2,4,16}. binary: the real grog binary on wide graphs of sleeping commands with 1-3 workers (two builds, the second partially cached): S/E trace lines written by the commands give the same three invariants. "
              "Non-trivial = some selected node joins >=2 dependencies with different latencies AND num_workers is below the width of some layer; distinct by full case."),
     "assumptions": [
         "interleavings between goroutines at the same virtual instant are the Go scheduler's choice: sampled (also under -race), not enumerated",
@@ -176,6 +183,9 @@ PROPS["C03"] = {
         {"name": "race", "pkg": "c03", "test": "TestRace", "race": True,
          "quick": {"shards": 4, "checks": 400, "cap": 900},
          "thorough": {"shards": 8, "checks": 6000, "cap": 7200}},
+        {"name": "binary", "pkg": "c03", "test": "TestBinary", "binary": True,
+         "quick": {"shards": 24, "checks": 48, "cap": 900, "shrinktime": "60s"},
+         "thorough": {"shards": 32, "checks": 1200, "cap": 7200, "shrinktime": "120s"}},
     ],
 }
 
@@ -262,10 +272,12 @@ PROPS["C14"] = _hist("C14",
     "A target whose check fails before the cache decision must run; if checks still fail after execution, or an output is missing, or the timeout hits, the build must exit non-zero, name the target, skip dependants and record nothing (next build runs it again).",
     "the history destroys a marker, skips an output or triggers a timeout", quick=96)
 PROPS["C05"] = _hist("C05",
-    "histories: failing subsets chosen through undeclared switch files (exit 3, missing declared output, timeout, failing check) so that cache keys do not move, keep-going and --fail-fast builds, follow-up builds with switches cleared. Keep-going: every target without a failed transitive dependency runs or is restored, no dependant of a failed target has an S line, exit != 0, failed labels named; the follow-up build must run every previously failed target again (nothing was cached).",
+    "histories: failing subsets chosen through undeclared switch files (exit 3, missing declared output, timeout, failing check) so that cache keys do not move, keep-going and --fail-fast builds, follow-up builds with switches cleared. Keep-going: every target without a failed transitive dependency runs or is restored, no dependant of a failed target has an S line, exit != 0, failed labels named; the follow-up build must run every previously failed target again (nothing was cached). failfast-gated: real binary, --fail-fast, F fails as soon as B1 started, B1 sleeps 3 s, B2 depends on B1: B2 must never start and grog must exit non-zero. walker: same containment rules in a synctest bubble.",
     "a build with a failing target that has both a selected dependant and a selected independent target",
     extra_parts=[{"name": "walker", "pkg": "c05", "test": "TestWalkerContainment",
-                  "quick": {"shards": 8, "checks": 3000, "cap": 900}, "thorough": {"shards": 16, "checks": 60000, "cap": 7200}}])
+                  "quick": {"shards": 8, "checks": 3000, "cap": 900}, "thorough": {"shards": 16, "checks": 60000, "cap": 7200}},
+                 {"name": "failfast-gated", "pkg": "c05", "test": "TestFailFastGated", "binary": True,
+                  "quick": {"shards": 12, "checks": 24, "cap": 900}, "thorough": {"shards": 24, "checks": 400, "cap": 7200}}])
 PROPS["C15"] = _hist("C15",
     "lock-step histories: every build of a C01-style history (all edit kinds, taint, aliases, dir and bin outputs) is played twice: load_outputs=all and load_outputs=minimal in separate workspaces and caches. Exit status and executed set must be equal; every output of a target executed under minimal must equal the expectation (so every dependency output it read, also through aliases, was present and current).",
     "a minimal-mode build executed a target while >=1 of its direct dependencies was a cache hit (outputs had to be loaded on demand)", quick=64, thorough=1500)
